@@ -908,7 +908,7 @@ class SyncState:  # pylint: disable=too-many-instance-attributes, too-many-publi
         if oid is not None:
             # ent with oid goes in changeset
             assert self.lookup_oid(side, oid) is ent
-            if ent[side].changed or ent[OTHER_SIDE[side]].changed:
+            if ent[side].changed or (ent[OTHER_SIDE[side]].changed and ent[OTHER_SIDE[side]].oid):
                 self._changeset_storage.add(ent)
         else:
             # ent without oid doesn't go in changeset
